@@ -32,13 +32,67 @@ package martian
 //@ ensures nWrote() == old(nWrote()) + 1
 //@ ensures res != nil ==> wroteStatus() == old(res.StatusCode)
 
-// Reading the next request (net/http; deadlines are C15's subject).
-//@ func (*proxyConn).readRequest
+// ---- stall limits (C15): which read deadline is armed while waiting for what ----
+
+// rdN(c): how many read deadlines have been set on c; rdAt(c, k): the k-th one.
+//@ ghost ivar rdN(net.Conn) int
+//@ ghost ivar rdAt(net.Conn, int) time.Time
+//@ func (net.Conn).SetReadDeadline as (c net.Conn, t time.Time) (err error)
 //@ trusted
-//@ modifies *, readOK()
+//@ modifies rdN(c), rdAt(c, rdN(c))
+//@ ensures rdN(c) == old(rdN(c)) + 1 && rdAt(c, old(rdN(c))) == t
+
+//@ pred noDeadline(t time.Time) = t.wall == 0 && t.ext == 0 && t.loc == nil
+//@ pred idleT(p *Proxy) = ite(p.IdleTimeout > 0, p.IdleTimeout, p.ReadTimeout)
+//@ pred hdrT(p *Proxy) = ite(p.ReadHeaderTimeout > 0, p.ReadHeaderTimeout, p.ReadTimeout)
+
+//@ func (*Proxy).idleTimeout
+//@ property C15
+//@ requires p != nil
+//@ pure
+//@ ensures result == idleT(p)
+
+//@ func (*Proxy).readHeaderTimeout
+//@ property C15
+//@ requires p != nil
+//@ pure
+//@ ensures result == hdrT(p)
+
+// (net/http parses the request; tracing ids; CONNECT content length)
+//@ func http.ReadRequest
+//@ trusted
+//@ modifies *
 //@ preserves proxyConn.* Proxy.* bufio.ReadWriter.*
 //@ ensures result1 == nil ==> result0 != nil && result0.Body != nil && result0.URL != nil && result0.Header != nil
-//@ ensures readOK() == (result1 == nil)
+//@ func (*http.Request).WithContext
+//@ trusted
+//@ pure
+//@ ensures result != nil && fresh(result) && result.Body == r.Body && result.URL == r.URL && result.Header == r.Header && result.Method == r.Method
+//@ func fixConnectReqContentLength
+//@ trusted
+//@ modifies http.Request.ContentLength
+//@ pure martian.withTraceID martian.newTraceID
+
+// readRequest: while waiting for the first byte of the next request the idle
+// deadline is armed (none when the timeout is 0); from the first byte until the
+// head is complete the read-header deadline; afterwards the whole-request
+// deadline, or none when ReadTimeout is 0 - in particular the header and idle
+// timers are no longer armed while the origin is answering.
+//@ func (*proxyConn).readRequest
+//@ property C15 C13
+//@ ghostset readOK() := (result1 == nil)
+//@ requires p != nil && p.Proxy != nil && p.conn != nil && p.brw != nil && p.brw.Reader != nil
+//@ modifies *, readOK(), rdN(p.conn), rdAt
+//@ preserves proxyConn.* Proxy.* bufio.ReadWriter.*
+//@ ensures result1 == nil ==> result0 != nil && result0.Body != nil && result0.URL != nil && result0.Header != nil
+//@ ensures rdN(p.conn) >= old(rdN(p.conn)) + 1
+//@ ensures idleT(p.Proxy) > 0 ==> rdAt(p.conn, old(rdN(p.conn))) == tAddOf(theNow(), idleT(p.Proxy))
+//@ ensures idleT(p.Proxy) <= 0 ==> noDeadline(rdAt(p.conn, old(rdN(p.conn))))
+//@ ensures result1 == nil ==> rdN(p.conn) >= old(rdN(p.conn)) + 2
+//@ ensures result1 == nil && hdrT(p.Proxy) > 0 ==> rdAt(p.conn, old(rdN(p.conn)) + 1) == tAddOf(theNow(), hdrT(p.Proxy))
+//@ ensures result1 == nil && hdrT(p.Proxy) <= 0 ==> noDeadline(rdAt(p.conn, old(rdN(p.conn)) + 1))
+//@ ensures result1 == nil && p.ReadTimeout > 0 ==> teq(rdAt(p.conn, rdN(p.conn) - 1), tAddOf(theNow(), p.ReadTimeout))
+//@ ensures result1 == nil && p.ReadTimeout <= 0 ==> exists z time.Time :: noDeadline(z) && teq(rdAt(p.conn, rdN(p.conn) - 1), z)
 
 //@ func (*Proxy).closing
 //@ trusted
@@ -209,7 +263,7 @@ package martian
 // I/O on the client connection and message serialisation (net, bufio, net/http):
 // arbitrary effects on memory, but they never rewrite the status, method or
 // close flags of the messages they are given.
-//@ func (net.Conn).SetWriteDeadline, (net.Conn).SetReadDeadline, isTextEventStream, newPatternFlushWriter, (*proxyConn).writeResponse$1, ContextDuration, (io.Closer).Close, (io.ReadCloser).Close, (io.ReadWriteCloser).Close
+//@ func (net.Conn).SetWriteDeadline, isTextEventStream, newPatternFlushWriter, (*proxyConn).writeResponse$1, ContextDuration, (io.Closer).Close, (io.ReadCloser).Close, (io.ReadWriteCloser).Close
 //@ trusted
 //@ modifies *
 //@ preserves http.Response.StatusCode http.Response.Close http.Response.Request http.Request.Method http.Request.Close http.Response.Header http.Request.Header http.Request.URL http.Request.Body http.Response.Body proxyConn.* Proxy.* bufio.ReadWriter.* maps(http.Header)
@@ -294,7 +348,7 @@ package martian
 // ---- the per-request handler (C13 L13.1, C04 L4.1, C11 L11.2) ----
 
 // TLS / bufio / MITM plumbing used by handleMITM (crypto and buffering are library behaviour).
-//@ func (*bufio.ReadWriter).Peek, (*bufio.ReadWriter).Read, (*bufio.Reader).Read, tls.Server, (*tls.Conn).HandshakeContext, (*tls.Conn).ConnectionState, (*mitm.Config).TLSForHost, (*mitm.Config).HandshakeErrorCallback, (*mitm.Config).H2Config, (*h2.Config).Proxy, (*bufio.Writer).Reset, (*bufio.Reader).Reset, io.MultiReader, bytes.NewReader, (net.Addr).String
+//@ func (*bufio.ReadWriter).Peek, (*bufio.ReadWriter).Read, (*bufio.Reader).Read, tls.Server, (*tls.Conn).ConnectionState, (*mitm.Config).TLSForHost, (*mitm.Config).HandshakeErrorCallback, (*mitm.Config).H2Config, (*h2.Config).Proxy, (*bufio.Writer).Reset, (*bufio.Reader).Reset, io.MultiReader, bytes.NewReader, (net.Addr).String
 //@ trusted
 //@ modifies *
 //@ preserves proxyConn.* Proxy.* bufio.ReadWriter.* http.Response.StatusCode http.Response.Request http.Request.Method http.Response.Header http.Request.Header http.Request.URL http.Request.Body http.Response.Body
@@ -303,12 +357,14 @@ package martian
 // complete exactly once; no upstream is contacted on its behalf here.
 //@ ghost ivar nMITM() int
 //@ func (*proxyConn).handleMITM
-//@ property C13 C04 C07
+//@ property C13 C04 C07 C15
 //@ ghostset nMITM() := old(nMITM()) + 1
 //@ requires p != nil && p.Proxy != nil && p.conn != nil && p.brw != nil && p.brw.Writer != nil && p.brw.Reader != nil && p.MITMConfig != nil && req != nil && req.Method == "CONNECT" && req.URL != nil
-//@ modifies *, nWrote(), wroteStatus(), sawClosing(), wrotePA(), wErr(), nMITM()
+//@ modifies *, nWrote(), wroteStatus(), sawClosing(), wrotePA(), wErr(), nMITM(), hsBudget
 //@ preserves Proxy.* http.Request.Method proxyConn.Proxy proxyConn.brw bufio.ReadWriter.*
 //@ ensures p.conn != nil
+// (C15: the handshake with the intercepted client runs under the MITM handshake timeout)
+//@ ensures p.MITMTLSHandshakeTimeout > 0 && p.conn != old(p.conn) ==> (p.conn is *tls.Conn) && hsBudget(p.conn.(*tls.Conn)) == p.MITMTLSHandshakeTimeout
 //@ ensures nWrote() == old(nWrote()) + 1 || (sawClosing() && nWrote() == old(nWrote()))
 //@ ensures upstream() == old(upstream())
 
@@ -464,10 +520,22 @@ package martian
 //@ modifies *
 //@ preserves Proxy.*
 //@ ensures result != nil && result.Proxy == p && result.conn == conn && result.brw != nil && result.brw.Writer != nil && result.brw.Reader != nil
-//@ func (*proxyConn).maybeHandshakeTLS
+// maybeHandshakeTLS (C15): the listener-side TLS handshake runs under the
+// configured handshake timeout.
+//@ ghost ivar hsBudget(*tls.Conn) int
+//@ func (*tls.Conn).HandshakeContext as (c *tls.Conn, ctx context.Context) (err error)
 //@ trusted
-//@ modifies *
+//@ modifies *, hsBudget(c)
+//@ preserves proxyConn.* Proxy.* bufio.ReadWriter.* http.Response.StatusCode http.Response.Request http.Request.Method http.Response.Header http.Request.Header http.Request.URL http.Request.Body http.Response.Body
+//@ ensures hsBudget(c) == ctxTimeout(ctx)
+//@ func (*proxyConn).maybeHandshakeTLS
+//@ property C15
+//@ requires p != nil && p.Proxy != nil
+//@ modifies *, hsBudget
 //@ preserves Proxy.* proxyConn.Proxy proxyConn.brw proxyConn.conn bufio.ReadWriter.*
+//@ ensures !(p.conn is *tls.Conn) ==> result == nil
+//@ ensures (p.conn is *tls.Conn) && p.TLSHandshakeTimeout > 0 ==> hsBudget(p.conn.(*tls.Conn)) == p.TLSHandshakeTimeout
+//@ ensures (p.conn is *tls.Conn) && p.TLSHandshakeTimeout <= 0 ==> hsBudget(p.conn.(*tls.Conn)) == 0
 
 // handleLoop: whatever happens - shutdown already begun, handshake failure,
 // client gone, errors - the socket is closed exactly once, the connection is
@@ -504,6 +572,7 @@ package martian
 //@ func (*Proxy).init
 //@ trusted
 //@ modifies *
+//@ ensures p.conns != nil
 //@ pure martian.Shutdown$2 (*martian.Proxy).Shutdown$2
 //@ func (*Proxy).Shutdown
 //@ property C11
@@ -512,3 +581,20 @@ package martian
 //@ ensures result == nil ==> a32(p.connsWg) == 0 || ctxErr(ctx) == nil
 //@ loop 0:
 //@   invariant p == old(p) && p != nil && timer != nil
+
+// Serve (C15): the accept loop itself never invokes a method of an accepted
+// connection that may wait for that connection's first bytes (with a PROXY
+// protocol listener RemoteAddr/LocalAddr read the header): a stalled peer
+// cannot hold up the acceptance of the next one. The connection is handed to
+// its own goroutine untouched.
+//@ pure (net.Error).Temporary time.Sleep
+//@ func (net.Listener).Close as (l net.Listener) (result error)
+//@ trusted
+//@ pure
+//@ func (*Proxy).Serve
+//@ property C15 C11
+//@ requires p != nil && l != nil
+//@ modifies **
+//@ ensures connUse() == old(connUse())
+//@ loop 0:
+//@   invariant connUse() == old(connUse()) && p != nil && l != nil && p.conns != nil
